@@ -178,6 +178,19 @@ func encode(proto string, isReq bool, pid int, key int, st *encState) []byte {
 			return []byte(fmt.Sprintf("*3\r\n$10\r\npsubscribe\r\n$%d\r\n%s\r\n:2\r\n", len(mark), mark))
 		}
 		return []byte(fmt.Sprintf("$%d\r\n%s\r\n", len(mark), mark))
+	case "httphead":
+		// HTTP/1.1 whose first, third ... request is a HEAD; its answer declares the length of the body it does not send
+		st.sent++
+		if isReq {
+			if st.sent%2 == 1 {
+				return []byte(fmt.Sprintf("HEAD /%s HTTP/1.1\r\nHost: example.com\r\n\r\n", mark))
+			}
+			return []byte(fmt.Sprintf("GET /%s HTTP/1.1\r\nHost: example.com\r\n\r\n", mark))
+		}
+		if st.sent%2 == 1 {
+			return []byte(fmt.Sprintf("HTTP/1.1 200 OK\r\nContent-Length: 5\r\nX-Id: %s\r\n\r\n", mark))
+		}
+		return []byte(fmt.Sprintf("HTTP/1.1 200 OK\r\nContent-Length: 0\r\nX-Id: %s\r\n\r\n", mark))
 	case "httpup":
 		// HTTP/1.1 whose first request of a connection asks for an upgrade to h2c and whose server declines (answers
 		// 200 in HTTP/1.1 and goes on in HTTP/1.1): what the client half does next must not depend on whether the
@@ -255,7 +268,7 @@ type connState struct {
 func newWorld(proto string, conns []int) *world {
 	extensions.LoadExtensions()
 	extName := proto
-	if proto == "http2" || proto == "httpup" {
+	if proto == "http2" || proto == "httpup" || proto == "httphead" {
 		extName = "http"
 	}
 	if proto == "redissub" {
